@@ -25,6 +25,10 @@ Three independent pieces per case (DESIGN.md §7 C20):
 (c) END-TO-END ORACLE: the file the CLI wrote is compared (as a parsed structure, 1e-6) with the file written by
     the equivalent API pipeline run under the same `random`/`numpy.random` seed; find-only: the printed matches equal
     the API's matches as a set of sorted tuples.
+(d') SUPERCELL CLAUSE: whenever --replicate / --mic are given, the lattice stated by the written file is factor i x lattice
+    vector i of the input (generated worlds: the world's cell; repository files: the input file read by the check's own reader),
+    for cells that are not orthorhombic and factors that differ — the command line and the API share Atoms.replicate, so (c) is
+    blind to a defect there.
 (d) BY-CONSTRUCTION ORACLES (c20_effects.py): worlds for which the matches to report and the file to write are known from
     the way the input was built — the tolerance judged by its effect on copies deformed by a known amount in every
     orientation, and the force-field terms after a re-parameterising replacement on rings; judged on the written file with
@@ -64,7 +68,11 @@ RULE = ("worlds: generated periodic structures (orthorhombic; a separate triclin
         "|d| >= 2.5 atol must not; (ii) LAMMPS inputs with bonds/angles/dihedrals/impropers and coefficient tables holding 2-3 copies of a "
         "3- or 4-membered ring with substituents, replacement pattern = the same atoms (+ optionally one atom) carrying 2-4 re-defined terms "
         "(listed forwards or backwards, also terms new to the structure), -p default/0.5, +-replicate, conversion / find-only: the terms of "
-        "the written file are the input's, minus those re-defined between the same atoms in the same roles, plus the replacement's; every case also feeds the execution tie and the argument-vector tie, plus 200 "
+        "the written file are the input's, minus those re-defined between the same atoms in the same roles, plus the replacement's; (iii) SUPERCELLS: --replicate nx ny nz with factors from 1..3 that differ from each other (product <= 6) on "
+        "monoclinic / general triclinic / orthorhombic worlds, inputs lmpdat/cif/cml(+--extract-uc) x outputs lmpdat/cif, conversion / "
+        "find-only / replacement, and on the repository's uio66-triclinic.lmpdat / .cif and docs uio66.cif: the written lattice is "
+        "factor i x vector i of the input's (lengths and angles) and, without a replacement, the atoms are the input's atoms and their "
+        "images under these vectors (input and output both read by the check's own readers); every case also feeds the execution tie and the argument-vector tie, plus 200 "
         "(quick) / 3000 (thorough) generated command lines, half of them with one defect. Non-trivial = distinct input in which at least one option beyond "
         "input/output reaches a library call.")
 
@@ -1355,6 +1363,97 @@ def oracle_against_input(path, world, o):
             used[idx[0]] = True
     if not replace and len(out_el) != expected:
         return "the output holds %d atoms, the input (with its --replicate / --mic images) %d" % (len(out_el), expected)
+    # the lattice of the written file is the lattice of the supercell the options name: vector i of the input cell times
+    # factor i (the atoms above were found at their images under these very vectors: a file whose cell is another one
+    # describes another periodic structure)
+    if final_cell is not None:
+        bad = lattice_mismatch(got.get("cell"), final_cell, sfx)
+        if bad:
+            return "%s (input cell rows %s, factors %s)" % (bad, [[round(float(v), 5) for v in r] for r in cell], dims)
+    return None
+
+
+def lattice_mismatch(got_cell, want_cell, sfx):
+    """the lattice a written file states against the lattice it has to state, as lengths and angles (Gram matrix: both
+    formats fix the orientation, so nothing is lost).  None or text."""
+    import numpy as np
+    if got_cell is None:
+        return "the written file states no unit cell"
+    want_cell = np.array(want_cell, dtype=float)
+    G, Gf = want_cell.dot(want_cell.T), np.array(got_cell).dot(np.array(got_cell).T)
+    if np.abs(G - Gf).max() <= 1e-3 * max(1.0, np.abs(G).max()) * (1e-2 if sfx == ".lmpdat" else 1.0):
+        return None
+
+    def ang(M):
+        with np.errstate(all="ignore"):
+            return [round(float(np.degrees(np.arccos(M[i][j] / np.sqrt(M[i][i] * M[j][j])))), 3) for i, j in ((1, 2), (0, 2), (0, 1))]
+    return ("the lattice of the written file (lengths %s, alpha/beta/gamma %s) is not the lattice of the replicated input "
+            "(lengths %s, angles %s)" % ([round(float(np.sqrt(Gf[i][i])), 5) for i in range(3)], ang(Gf),
+                                        [round(float(np.sqrt(G[i][i])), 5) for i in range(3)], ang(G)))
+
+
+def oracle_repo_supercell(path, o, T):
+    """repository files (worlds that are not generated): the input file and the written file are both read by the check's
+    own readers; without a replacement the written file states the lattice (n_i x vector i of the input's) and holds the
+    atoms (every input atom shifted by i*a + j*b + k*c, same element, up to the order and to lattice vectors of the
+    supercell) of the supercell named by --replicate / --mic.  With a replacement only the lattice is required.  None or text."""
+    import itertools
+    import numpy as np
+    if o["dump"] or o["framework_element"]:
+        return None
+    sfx, isfx = suffix(path), suffix(o["input"])
+    if sfx not in (".cif", ".lmpdat") or isfx not in (".cif", ".lmpdat"):
+        return None
+    read = lambda p: structure_from_cif(p) if suffix(p) == ".cif" else structure_from_lmpdat(p)
+    try:
+        src = read(sub(o["input"], T))
+        if o["extract_uc"]:
+            src["cell"] = read(sub(o["extract_uc"], T))["cell"]
+    except Exception:
+        return None                                  # the input is outside what the check's own readers understand
+    if src.get("cell") is None or src.get("elems") is None:
+        return None
+    try:
+        got = read(path)
+    except Exception as e:
+        return "the written %s file cannot be read back by an independent reader: %r" % (sfx, e)
+    cell = np.array(src["cell"], dtype=float)
+    cell[np.abs(cell) < 1e-9 * np.abs(cell).max()] = 0.0       # cos(90 degrees) of the CIF angles is 6e-17, not 0
+    dims = [int(v) for v in o["replicate"]] if o["replicate"] else [1, 1, 1]
+    if o["mic"] is not None and not cell_is_diag(cell.tolist()):
+        if np.abs(cell - np.diag(np.diag(cell))).max() < 1e-3:
+            return None                              # within rounding of orthorhombic: which branch --mic takes is not decided here
+    if o["mic"] is not None and cell_is_diag(cell.tolist()):
+        md, margin = spec_mic_dims(fl(o["mic"]), [[cell[i][j] * dims[i] for j in range(3)] for i in range(3)])
+        if margin <= 1e-7:
+            return None
+        dims = [dims[i] * md[i] for i in range(3)]
+    final_cell = cell * np.array(dims).reshape(3, 1)
+    bad = lattice_mismatch(got.get("cell"), final_cell, sfx)
+    if bad:
+        return "%s (input cell rows %s, factors %s)" % (bad, [[round(float(v), 5) for v in r] for r in cell], dims)
+    if o["find"] and o["replace"]:
+        return None
+    pos = src["cart"] if "cart" in src else src["frac"].dot(cell)
+    want = np.array([p + np.array(m, dtype=float).dot(cell) for m in itertools.product(*[range(d) for d in dims]) for p in pos])
+    want_el = list(src["elems"]) * (dims[0] * dims[1] * dims[2])
+    if len(got["elems"]) != len(want_el):
+        return "the output holds %d atoms, the input with its --replicate / --mic images %d" % (len(got["elems"]), len(want_el))
+    if len(want) > 3000:
+        return None
+    have = got["cart"] if "cart" in got else got["frac"].dot(final_cell)
+    finv = np.linalg.inv(final_cell)
+    tol = 5e-3 if ".cif" in (sfx, isfx) else 5e-5
+    used = np.zeros(len(have), dtype=bool)
+    got_el = np.array(list(got["elems"]))
+    for k in range(len(want)):
+        f = (have - want[k]).dot(finv)
+        d = np.abs((f - np.round(f)).dot(final_cell)).max(axis=1)
+        idx = np.nonzero((d <= tol) & (~used) & (got_el == want_el[k]))[0]
+        if len(idx) == 0:
+            return "the image of input atom %d (%s) at %s is not in the output (modulo the supercell's lattice)" % (
+                k % len(pos), want_el[k], [round(float(v), 4) for v in want[k]])
+        used[idx[0]] = True
     return None
 
 
@@ -1918,7 +2017,16 @@ def run_case(world, o, seed):
                         failures.append(("the file written by the command line is not the input structure"
                                          + (" outside the replaced patterns" if (o["find"] and o["replace"]) else "")
                                          + ": " + bad, {"argv": [unsub(x, T) for x in argv(o, T)]},
-                                         "every input atom that is not replaced keeps its element and its stored coordinates", []))
+                                         "every input atom that is not replaced keeps its element and its stored coordinates; "
+                                         "the written lattice is factor i x vector i of the input's", []))
+                    if world.get("kind") != "gen":
+                        bad = oracle_repo_supercell(out_cli, o, T)
+                        if bad:
+                            failures.append(("the file written by the command line is not the supercell of the input file that "
+                                             "--replicate / --mic name: " + bad, {"argv": [unsub(x, T) for x in argv(o, T)]},
+                                             "lattice = factor i x vector i of the input's; without a replacement the atoms are "
+                                             "the input's atoms and their images under these vectors", []))
+                        info["repo_supercell_checked"] = True
                     # worlds whose result is known by construction (c20_effects): the tolerance by its effect, and
                     # the force-field terms after a re-parameterising replacement
                     if "tol" in world:
@@ -2178,6 +2286,48 @@ def effect_cases(ctx, ntol, nff):
     return out
 
 
+def draw_factors(rng, max_product=6):
+    """replication factors (nx, ny, nz) from 1..3, at least two of them different in four draws out of five"""
+    while True:
+        f = [rng.randint(1, 3) for _ in range(3)]
+        if f[0] * f[1] * f[2] > max_product or f == [1, 1, 1]:
+            continue
+        if len(set(f)) == 1 and rng.random() < 0.8:
+            continue
+        return f
+
+
+TESTS = "$REPO/tests/uio66/"
+
+
+def supercell_cases(ctx, nworlds):
+    """--replicate nx ny nz with factors that differ from each other, on cells that are not orthorhombic (monoclinic, general
+    triclinic; also orthorhombic), every input format that carries a cell x both output formats, conversion / find-only /
+    replacement; and the repository's own triclinic UiO-66 files (LAMMPS data and CIF) and the documented cubic one"""
+    rng = ctx.rng
+    out = []
+    combos = [(i, f) for i in ("lmpdat", "cif", "cml") for f in ("lmpdat", "cif")]
+    rng.shuffle(combos)
+    for k in range(nworlds):
+        in_fmt, out_fmt = combos[k % len(combos)]
+        kind = rng.choice(["tri", "tri", "mono", "ortho"])
+        w = gen_world(rng, kind, in_fmt, rng.choice(["cml", "lmpdat"]), out_fmt)
+        w["with_bonds"] = in_fmt in ("lmpdat", "cif") and rng.random() < 0.3
+        if in_fmt == "lmpdat" and rng.random() < 0.3:
+            move_outside(rng, w)
+        for mode in ("none", rng.choice(["find", "replace"])):
+            row = {"atol": None, "p": rng.choice([None, "0.5"]), "hints": rng.choice(["none", "none", "012"]),
+                   "replicate": draw_factors(rng), "mic": None, "q": rng.random() < 0.3, "pp": rng.random() < 0.2, "mode": mode}
+            out.append((w, opts_of_row(row, w), rng.randint(0, 10 ** 6), "supercell"))
+    # repository files
+    wd = {"kind": "docs"}
+    base = blank_opts()
+    for src in (TESTS + "uio66-triclinic.lmpdat", TESTS + "uio66-triclinic.cif", DOCS + "uio66.cif"):
+        o = dict(base, input=src, output="$T/super." + rng.choice(["lmpdat", "cif"]), replicate=draw_factors(rng, 4))
+        out.append((wd, o, rng.randint(0, 10 ** 6), "supercell-repo"))
+    return out
+
+
 def fw_cases(ctx):
     rng = ctx.rng
     w = gen_world(rng, "ortho", "lmpdat", "cml", "lmpdat")
@@ -2200,6 +2350,7 @@ def all_cases(ctx, scale=1):
     cs += fw_cases(ctx)
     cs += docs_cases(ctx.rng, thorough)
     cs += effect_cases(ctx, ctx.n(4, 24) * scale, ctx.n(3, 18) * scale)
+    cs += supercell_cases(ctx, ctx.n(6, 30) * scale)
     if thorough:
         # "all random seeds": the random rows again under further seeds (fraction < 1 and symmetric patterns draw)
         more = [(w, o, ctx.rng.randint(0, 10 ** 6), "reseed") for (w, o, s, st) in cs
@@ -2378,7 +2529,7 @@ def search(ctx):
     saved = ctx.tier
     ctx.tier = "quick"
     try:
-        cases = effect_cases(ctx, 8, 6) + generated_cases(ctx, 3) + extra_cases(ctx) + docs_cases(ctx.rng, False)
+        cases = supercell_cases(ctx, 12) + effect_cases(ctx, 8, 6) + generated_cases(ctx, 3) + extra_cases(ctx) + docs_cases(ctx.rng, False)
         _evaluate(ctx, cases, with_model=False)
     finally:
         ctx.tier = saved
